@@ -1686,6 +1686,8 @@ def all_targets():
     al = ["/", "a", ".", "?", "#"]
     ts = [[]] + [[x] for x in al] + [[x, y] for x in al for y in al] + [[x, y, z] for x in al for y in al for z in al]
     ts += [["/", "a", x, y] for x in al for y in al]
+    # the same targets with the letter in upper case: matching is case-sensitive (the rules say "/a", the request says "/A")
+    ts += [[("A" if c == "a" else c) for c in t] for t in ts if "a" in t and len(t) <= 3]
     return ts
 
 
